@@ -130,7 +130,7 @@ def run(tier, seed):
                                    and np.allclose(r2x[2], sar, atol=1e-3) and list(r2x[3]) == list(perm))
         # the same numeric facts for the image variant (2 channels), and evaluate() as the bundle of the four functions
         imgdecompok = imgscaleok = evalok = True
-        if it % 2 == 0 or thorough:
+        if it % 2 == 0 or thorough or it == 1:      # it == 1: a two-source input, so that evaluate() is bundled in the quick tier too
             r3 = np.stack([ref, 0.6 * ref + 0.05 * g.randn(nsrc, Ls)], axis=2)
             e3 = np.stack([est, 0.6 * est + 0.05 * g.randn(nsrc, Ls)], axis=2)
             comp = sp._bss_decomp_mtifilt_images(r3, np.reshape(e3[0], (Ls, 2), order="F"), 0, 512)
